@@ -26,6 +26,13 @@ pub use lower::HugeId;
 mod trees;
 pub use trees::TreeId;
 
+/// Re-exports for the verification harness (feature `verif`).
+#[cfg(feature = "verif")]
+pub mod verif_api {
+    pub use crate::atomic::verif::{Hook, Op, installed, set_hook};
+    pub use crate::bitfield::{RowId, verif_first_zeros_aligned};
+}
+
 use core::fmt;
 use core::mem::align_of;
 
